@@ -16,11 +16,11 @@ CHECKS = {
           "Round-trip oracle over generated SDES configurations; sweeps enumerate every alignment residue and every distance of the last item from the packet end (two items of lengths 0..=11 x following SSRC with 0..=4 leading zero bytes x padding) and every single-item length. The saved failing inputs of earlier defects and of the seeded changes are replayed first in every tier; the thorough tier adds 8 libFuzzer processes whose in-target oracle is this property's oracle.", "DESIGN.md 3/C03"),
  "C04": e("round-trip PBT + exhaustive reason-length x padding x sources sweep; thorough tier adds a coverage-guided libFuzzer campaign (hand-decoded builder configurations -> the same oracle)",
           "Round-trip oracle for BYE and APP; the BYE sweep (reason length 0..=255 x padding {0,4,8,252} x sources {0,1,31}) is exhaustive for the arithmetic that decides the layout. The saved failing inputs of earlier defects and of the seeded changes are replayed first in every tier; the thorough tier adds 8 libFuzzer processes whose in-target oracle is this property's oracle.", "DESIGN.md 3/C04"),
- "C05": e("round-trip PBT over feedback builders x FCI generators (NACK window boundaries, FIR re-adds, RPSI length x bits sweep); thorough tier adds a coverage-guided libFuzzer campaign (hand-decoded builder configurations -> the same oracle)",
+ "C05": e("round-trip PBT over feedback builders x FCI generators (NACK window boundaries, FIR re-adds, RPSI length x bits sweep); iterator-protocol check (count/last/nth/skip/step_by/fold/find/...) on the decoded entries; thorough tier adds a coverage-guided libFuzzer campaign (hand-decoded builder configurations -> the same oracle)",
           "Round-trip oracle: builder bytes -> typed parser -> parse_fci::<F> compared with the configured set / map / list / bit string (RPSI as bits). Two known findings (empty SLI / FIR list) are keyed on their exact signatures. The saved failing inputs of earlier defects and of the seeded changes are replayed first in every tier; the thorough tier adds 8 libFuzzer processes whose in-target oracle is this property's oracle.", "DESIGN.md 3/C05"),
- "C06": e("PBT over (configuration, construction path incl. measure-then-configure, buffer length) incl. invalid configurations; oracle = agreement of calculate_size and write_into for every buffer length 0..=n+8; largest-packet leg (65536 / 65537 words); thorough tier adds a coverage-guided libFuzzer campaign (hand-decoded builder configurations -> the same oracle)",
+ "C06": e("PBT over (configuration, construction path incl. measure-then-configure, buffer length) incl. invalid configurations; oracle = agreement of calculate_size and write_into for every buffer length 0..=n+8; stateful leg: generated use histories (measure / write / too-short write) on one builder object; largest-packet leg (65536 / 65537 words); thorough tier adds a coverage-guided libFuzzer campaign (hand-decoded builder configurations -> the same oracle)",
           "For every generated configuration the announced size is compared with write_into on every buffer length from 0 to n+8 (sampled above 160 bytes); sweeps: every padding byte per kind, RPSI length x bits, every feedback x FCI pairing, SDES chunk/item builders. The saved failing inputs of earlier defects and of the seeded changes are replayed first in every tier; the thorough tier adds 8 libFuzzer processes whose in-target oracle is this property's oracle.", "DESIGN.md 3/C06"),
- "C07": e("differential PBT: proptest-generated builder configurations (every construction path, exact buffer and buffer with slack) + bounded-exhaustive sweeps vs an independent RFC encoder; thorough tier adds a coverage-guided libFuzzer campaign (hand-decoded builder configurations -> the same oracle)",
+ "C07": e("differential PBT: proptest-generated builder configurations (every construction path, exact buffer and buffer with slack) + bounded-exhaustive sweeps vs an independent RFC encoder; stateful leg: the image after a generated use history (repeated and failed writes) on one builder object; thorough tier adds a coverage-guided libFuzzer campaign (hand-decoded builder configurations -> the same oracle)",
           "Every accepted configuration's bytes must equal the image computed by a separately written RFC 3550/4585/5104 encoder (FIR as a multiset, NACK by reference decoding + minimal word count). Sees symmetric writer/parser errors that round trips cannot. The saved failing inputs of earlier defects and of the seeded changes are replayed first in every tier; the thorough tier adds 8 libFuzzer processes whose in-target oracle is this property's oracle.", "DESIGN.md 3/C07"),
  "C08": e("PBT + exhaustive header-space sweep + every-length-field sweep (bodies up to 512 KiB) over byte strings; oracle = framing predicate recomputed independently on every accepted string; thorough tier adds a coverage-guided libFuzzer campaign (raw bytes -> the same oracle)",
           "Whenever any typed parser, the generic parser or the unknown parser accepts a generated string, the framing conditions and header accessor values are recomputed from the bytes by the reference; the header-space sweep (1.4 M strings x 9 parsers in quick) is exhaustive over version x P x count x PT x length field x length x last byte. The saved failing inputs of earlier defects and of the seeded changes are replayed first in every tier; the thorough tier adds 8 libFuzzer processes whose in-target oracle is this property's oracle.", "DESIGN.md 3/C08"),
@@ -34,19 +34,19 @@ CHECKS = {
           "Generic dispatch and every conversion path are compared with the typed parser on the same bytes; the evidence lists the matrix cells hit. The saved failing inputs of earlier defects and of the seeded changes are replayed first in every tier; the thorough tier adds 8 libFuzzer processes whose in-target oracle is this property's oracle.", "DESIGN.md 3/C12"),
  "C13": e("metamorphic PBT: parse(p) vs parse(pad(p, n)) for all 63 legal paddings per generated base packet; thorough tier adds a coverage-guided libFuzzer campaign (hand-decoded builder configurations -> the same oracle)",
           "Metamorphic relation with an independently implemented RFC 3550 padding transform; all 63 paddings are swept for every generated base packet (from the reference encoder and from the crate's builders). The saved failing inputs of earlier defects and of the seeded changes are replayed first in every tier; the thorough tier adds 8 libFuzzer processes whose in-target oracle is this property's oracle.", "DESIGN.md 3/C13"),
- "C14": e("PBT over member lists (nested compounds, third-party writers, invalid members, padding anywhere); oracle = concatenation + parse-back; thorough tier adds a coverage-guided libFuzzer campaign (hand-decoded builder configurations -> the same oracle)",
+ "C14": e("PBT over member lists (nested compounds, third-party writers, invalid members, padding anywhere); oracle = concatenation + parse-back; list leg with members of exactly 65536 words and > 64 KiB compounds; thorough tier adds a coverage-guided libFuzzer campaign (hand-decoded builder configurations -> the same oracle)",
           "Success criterion, size == sum, bytes == concatenation of the members' own images and parse-back are checked for generated member lists; all pairs of kinds x padding positions are swept. The saved failing inputs of earlier defects and of the seeded changes are replayed first in every tier; the thorough tier adds 8 libFuzzer processes whose in-target oracle is this property's oracle.", "DESIGN.md 3/C14"),
  "C15": e("differential PBT + exhaustive single-word sweeps against reference FCI decoders; kind/format gating matrix; lists beyond 64 KiB; iterator-protocol check on the entry iterators; thorough tier adds a coverage-guided libFuzzer campaign (raw bytes -> the same oracle)",
           "Arbitrary FCI bytes under every kind x format; NACK single words swept over all masks x 8 PIDs and all PIDs x 8 masks, SLI fields exhaustively + 2^20 words, RPSI PB x length. The saved failing inputs of earlier defects and of the seeded changes are replayed first in every tier; the thorough tier adds 8 libFuzzer processes whose in-target oracle is this property's oracle.", "DESIGN.md 3/C15"),
  "C16": e("PBT over possibly-unrepresentable configurations vs an independent rule list; per-limit sweeps from both sides and far above (8-bit aliasing: 256+k); total-size boundary leg; thorough tier adds a coverage-guided libFuzzer campaign (hand-decoded builder configurations -> the same oracle)",
           "calculate_size must fail exactly when the independent representability predicate says so, with an error naming a violated rule and value. One root cause (no total-size limit) is recorded as five known findings keyed on exact signatures. The saved failing inputs of earlier defects and of the seeded changes are replayed first in every tier; the thorough tier adds 8 libFuzzer processes whose in-target oracle is this property's oracle.", "DESIGN.md 3/C16"),
- "C17": e("PBT with two complementary buffer prefills; oracle = written bytes independent of prefill, bytes beyond n and failed writes untouched; thorough tier adds a coverage-guided libFuzzer campaign (hand-decoded builder configurations -> the same oracle)",
+ "C17": e("PBT with two complementary buffer prefills; oracle = written bytes independent of prefill, bytes beyond n and failed writes untouched; stateful leg: generated use histories on one builder object; thorough tier adds a coverage-guided libFuzzer campaign (hand-decoded builder configurations -> the same oracle)",
           "Two prefills that differ in every byte expose any byte a writer leaves undefined or touches outside its claim, for accepted and rejected configurations and short buffers. The saved failing inputs of earlier defects and of the seeded changes are replayed first in every tier; the thorough tier adds 8 libFuzzer processes whose in-target oracle is this property's oracle.", "DESIGN.md 3/C17"),
  "C18": e("PBT + exhaustive header-space sweep; oracle = truthfulness predicates and exact error predictions recomputed from the bytes; thorough tier adds a coverage-guided libFuzzer campaign (raw bytes -> the same oracle)",
           "Every error returned by any parser on generated strings is checked against the input (version, type, expected vs actual ordering) and against two exact predictions (short input, length mismatch). The saved failing inputs of earlier defects and of the seeded changes are replayed first in every tier; the thorough tier adds 8 libFuzzer processes whose in-target oracle is this property's oracle.", "DESIGN.md 3/C18"),
  "C19": e("PBT over a const-generic family of out-of-crate packet types built on the public helpers; helper contracts swept over padding x count x family x buffer sizes; thorough tier adds a coverage-guided libFuzzer campaign (hand-decoded builder configurations -> the same oracle)",
           "A downstream-style packet family (6 type/min-length pairs) exercises check_packet, the header/padding writers and the unknown builder; fields must survive compound-parse -> Unknown -> try_as. The saved failing inputs of earlier defects and of the seeded changes are replayed first in every tier; the thorough tier adds 8 libFuzzer processes whose in-target oracle is this property's oracle.", "DESIGN.md 3/C19"),
- "C20": e("stateful PBT: builder call histories (choice bytes interpreted call by call, shrinking to the canonical sequence; setters permuted / overwritten, owned variants, size queries on the partially configured builder at history-chosen points) vs canonical construction of the final configuration; thorough tier adds a coverage-guided libFuzzer campaign (hand-decoded builder configurations -> the same oracle)",
+ "C20": e("stateful PBT: builder call histories (choice bytes interpreted call by call, shrinking to the canonical sequence; setters permuted / overwritten, owned variants, size queries on the partially configured builder at history-chosen points) vs canonical construction of the final configuration; one borrowed FCI builder shared by two packets written in generated order; thorough tier adds a coverage-guided libFuzzer campaign (hand-decoded builder configurations -> the same oracle)",
           "Histories permute setters, overwrite them with junk first, repeat adds and switch between owned/borrowed API variants and wrappers at arbitrary points; output must equal the canonical construction. The saved failing inputs of earlier defects and of the seeded changes are replayed first in every tier; the thorough tier adds 8 libFuzzer processes whose in-target oracle is this property's oracle.", "DESIGN.md 3/C20",
           "the canonical construction is itself checked against the RFC image by C07"),
 }
